@@ -115,35 +115,84 @@ def case(idx, payload):
     text = render(m)
     res = dict(idx=idx, text=text, bad=None, kinds=[])
     full = streams.impl_inst(text, "icpp")
+    model = streams.model_call("icpp", text)
     if full.startswith("ERR"):
         res["kinds"].append("impl_error")
+        if model != full:
+            res["bad"] = dict(kind="model", what="instantiation fails (%s) where the model succeeds" % full[:60], input=text)
         return res
-    model = streams.model_call("icpp", text)
     if model != full:
+        # keep going: the metamorphic oracles below decide whether the property itself fails on this input
         res["bad"] = dict(kind="model", what="model instantiation != implementation", input=text, **streams.first_diff(full, model))
-        return res
+    b = metamorphic(rng, m, text, full, res)
+    if b:
+        res["bad"] = b
+    return res
+
+
+def member_lines(cpp):
+    return [l for l in cpp.split("\n") if l.startswith("  ")]
+
+
+def is_subsequence(a, b):
+    it = iter(b)
+    return all(any(x == y for y in it) for x in a)
+
+
+def metamorphic(rng, m, text, full, res):
+    import gen
+    # (e) deleting one templated member of a class leaves the instantiations of all other members as they were
+    cands = []
+    for p, content in gen.walk_namespaces(m):
+        for d in content:
+            if d.kind == 'cls':
+                idxs = [j for j, mb in enumerate(d.cls.members) if mb.tmpl and mb.kind in ('ctor', 'method', 'static')]
+                if idxs and len(d.cls.members) >= 2:
+                    cands.append((p, d.cls.name, idxs))
+    trials = [(p, cname, j) for p, cname, idxs in cands for j in idxs]
+    rng.shuffle(trials)
+    for p, cname, j in trials[:6]:
+        m4 = copy.deepcopy(m)
+        for p4, content4 in gen.walk_namespaces(m4):
+            if p4 == p:
+                for d4 in content4:
+                    if d4.kind == 'cls' and d4.cls.name == cname:
+                        del d4.cls.members[j]
+                        break
+                break
+        t4 = render(m4)
+        less = streams.impl_inst(t4, "icpp")
+        res["kinds"].append("sibling_removed")
+        if less.startswith("ERR") or not is_subsequence(member_lines(less), member_lines(full)):
+            d = {}
+            if not less.startswith("ERR"):
+                fl = member_lines(full)
+                d = dict(changed_line=next((l for l in member_lines(less) if l not in fl), ""))
+            return dict(kind="spec", what="removing one templated member of class %s changes the instantiation of another member" % cname,
+                        input=text, input_without_member=t4, **d)
     # (c) originals untouched, fresh parse repeatable
     same, before, after = originals_snapshot(text)
     res["kinds"].append("snapshot")
     if not same:
         i = next(k for k in range(len(before)) if before[k] != after[k])
-        res["bad"] = dict(kind="spec", what="instantiation modified the original template declaration", input=text,
+        return dict(kind="spec", what="instantiation modified the original template declaration", input=text,
                           **streams.first_diff(before[i], after[i]))
-        return res
     if streams.impl_inst(text, "icpp") != full:
-        res["bad"] = dict(kind="spec", what="a second fresh parse + instantiation gives a different result", input=text)
-        return res
+        return dict(kind="spec", what="a second fresh parse + instantiation gives a different result", input=text)
     temps = list(find_templates(m))
     if not temps:
-        return res
+        return None
     content, i, cls = rng.choice(temps)
     blocks_full = class_blocks(full, cls.name)
     sizes = [len(tp.insts) for tp in cls.tmpl]
     n = 1
     for s in sizes:
         n *= s
+    if len(blocks_full) < n:
+        return dict(kind="spec", what="class template %s: %d argument tuples requested, only %d instantiations exist" % (cls.name, n, len(blocks_full)),
+                    input=text)
     if len(blocks_full) != n:
-        return res    # same-named declarations elsewhere: ambiguous block attribution, skip
+        return None    # same-named declarations elsewhere: ambiguous block attribution, skip
     # (a) singleton lists
     k = rng.randrange(n)
     digits, r = [], k
@@ -160,10 +209,9 @@ def case(idx, payload):
     b1 = class_blocks(single, cls.name)
     res["kinds"].append("singleton")
     if len(b1) != 1 or b1[0] != blocks_full[k]:
-        res["bad"] = dict(kind="spec", what="the instantiation for one argument tuple depends on the other requested instantiations",
+        return dict(kind="spec", what="the instantiation for one argument tuple depends on the other requested instantiations",
                           input=text, input_singleton=t1, tuple_index=k,
                           **streams.first_diff(blocks_full[k], b1[0] if b1 else "<none>"))
-        return res
     # (b) reversed lists
     m2 = copy.deepcopy(m)
     cls2 = next(c for _, _, c in find_templates(m2) if c.name == cls.name)
@@ -173,8 +221,7 @@ def case(idx, payload):
     rev = class_blocks(streams.impl_inst(t2, "icpp"), cls.name)
     res["kinds"].append("permutation")
     if sorted(rev) != sorted(blocks_full):
-        res["bad"] = dict(kind="spec", what="reordering the instantiation lists changes an instantiation", input=text, input_reversed=t2)
-        return res
+        return dict(kind="spec", what="reordering the instantiation lists changes an instantiation", input=text, input_reversed=t2)
     # (d) alpha renaming
     m3 = copy.deepcopy(m)
     cls3 = next(c for _, _, c in find_templates(m3) if c.name == cls.name)
@@ -185,14 +232,15 @@ def case(idx, payload):
     ren = streams.impl_inst(t3, "icpp")
     res["kinds"].append("renaming")
     if ren != full:
-        res["bad"] = dict(kind="spec", what="renaming template parameter %s to %s changes the result" % (old, new), input=text,
+        return dict(kind="spec", what="renaming template parameter %s to %s changes the result" % (old, new), input=text,
                           input_renamed=t3, **streams.first_diff(full, ren))
-    return res
+    return None
 
 
 def run(ctx, n, off=0, collect=True):
     first = None
-    for r in fw.run_cases(case, [(ctx.seed + off, None)] * n):
+    # second half: classes with many templated members (member-level templates next to each other)
+    for r in fw.run_cases(case, [(ctx.seed + off, None)] * n + [(ctx.seed + off + 1, dict(p_template=0.3, p_member_template=0.8, max_members=7, max_decls=3))] * (n // 2)):
         if "crash" in r:
             raise RuntimeError(r["crash"])
         if collect:
